@@ -117,8 +117,10 @@ type engineRT struct {
 	rt   wazero.Runtime
 	cA   wazero.CompiledModule
 	cB   wazero.CompiledModule
-	cC   [4]wazero.CompiledModule // startsecA, startsecB, startfnA, startfnB
+	cC   [4]wazero.CompiledModule         // startsecA, startsecB, startfnA, startfnB
 	self map[[2]int]wazero.CompiledModule // (kind, startSection) -> self-starter, compiled on first use
+	cX   [nXMem]wazero.CompiledModule     // module X per memory shape, compiled on first use
+	cQ   wazero.CompiledModule
 }
 
 var (
@@ -147,6 +149,7 @@ func newEngineRT(name string, term bool) *engineRT {
 	_, err := e.rt.NewHostModuleBuilder(hostModName).
 		NewFunctionBuilder().WithGoModuleFunction(api.GoModuleFunc(hostPanic), []api.ValueType{i32}, nil).Export("panic").
 		NewFunctionBuilder().WithGoModuleFunction(api.GoModuleFunc(hostClose), []api.ValueType{i32}, nil).Export("close").
+		NewFunctionBuilder().WithGoModuleFunction(api.GoModuleFunc(func(context.Context, api.Module, []uint64) {}), []api.ValueType{i32}, []api.ValueType{i32}).Export("nop").
 		NewFunctionBuilder().WithGoModuleFunction(api.GoModuleFunc(hostCloseB), []api.ValueType{i32}, nil).Export("closeb").
 		NewFunctionBuilder().WithGoModuleFunction(api.GoModuleFunc(hostGC), nil, []api.ValueType{i32}).Export("gc").
 		NewFunctionBuilder().WithGoModuleFunction(api.GoModuleFunc(hostReenter), []api.ValueType{i32, i32, i32, i32, i32}, []api.ValueType{i32}).Export("reenter").
@@ -170,6 +173,28 @@ func newEngineRT(name string, term bool) *engineRT {
 }
 
 func (e *engineRT) close() { e.rt.Close(e.ctx) }
+
+func (e *engineRT) xModule(memShape int) wazero.CompiledModule {
+	if e.cX[memShape] == nil {
+		c, err := e.rt.CompileModule(e.ctx, buildX(memShape))
+		if err != nil {
+			fw.Fatalf("%s: compile X%d: %v", e.name, memShape, err)
+		}
+		e.cX[memShape] = c
+	}
+	return e.cX[memShape]
+}
+
+func (e *engineRT) qModule() wazero.CompiledModule {
+	if e.cQ == nil {
+		c, err := e.rt.CompileModule(e.ctx, buildQ())
+		if err != nil {
+			fw.Fatalf("%s: compile Q: %v", e.name, err)
+		}
+		e.cQ = c
+	}
+	return e.cQ
+}
 
 func (e *engineRT) selfStarter(kind int, startSection bool) wazero.CompiledModule {
 	key := [2]int{kind, 0}
@@ -275,9 +300,12 @@ func hostReenter(ctx context.Context, mod api.Module, stack []uint64) {
 
 type world struct {
 	e    *engineRT
-	ctx  context.Context // carries the world; used for instantiating / closing A and B
-	cur  context.Context // the context the next step is called with (== ctx unless a context variant is explored)
-	base int             // runtime.NumGoroutine() when the world was created (settle)
+	ctx  context.Context   // carries the world; used for instantiating / closing A and B
+	cur  context.Context   // the context the next step is called with (== ctx unless a context variant is explored)
+	base int               // runtime.NumGoroutine() when the world was created (settle)
+	x    [nXMem]api.Module // module X per memory shape, instantiated on first use
+	xfn  [nXMem]map[int]api.Function
+	q    api.Module
 	A, B api.Module
 	fn   [6]api.Function // the function objects reused across the whole word
 }
@@ -317,11 +345,31 @@ func newWorld(e *engineRT) *world {
 func (w *world) close() {
 	w.A.Close(w.ctx)
 	w.B.Close(w.ctx)
+	for _, x := range w.x {
+		if x != nil {
+			x.Close(w.ctx)
+		}
+	}
+	if w.q != nil {
+		w.q.Close(w.ctx)
+	}
 	for _, n := range []string{"n", "m"} { // free the names for the next word
 		if m := w.e.rt.Module(n); m != nil {
 			m.Close(w.ctx)
 		}
 	}
+}
+
+// observeX renders the instances of module X that exist ("-" = not instantiated).
+func (w *world) observeX() string {
+	var p [nXMem]string
+	for i, x := range w.x {
+		p[i] = "-"
+		if x != nil {
+			p[i] = fmt.Sprintf("g=%d,closed=%v", uint32(x.ExportedGlobal("g").Get()), x.IsClosed())
+		}
+	}
+	return strings.Join(p[:], " ")
 }
 
 // registry renders what the runtime's name registry says about the named start instances.
@@ -373,6 +421,11 @@ const (
 	ShMSecSelf
 	ShLookup // Runtime.Module("n") and a call of its export
 	ShCloseN // Runtime.Module("n").Close
+	// module X (imports functions of A and B and the host functions) in its four memory shapes; sequence kinds only
+	ShXOwn
+	ShXNone
+	ShXShared
+	ShXImported
 	NShapes
 	nBaseShapes = ShNFnA
 )
@@ -388,6 +441,12 @@ func shapeKinds(shape int) []int {
 		return selfKinds
 	case ShLookup, ShCloseN:
 		return []int{KOk}
+	case ShXOwn, ShXNone, ShXShared, ShXImported:
+		ks := make([]int, nSeq)
+		for i := range ks {
+			ks[i] = KSeq0 + i
+		}
+		return ks
 	}
 	n := NKinds
 	if shapes[shape].target == 'B' {
@@ -418,6 +477,7 @@ var shapes = [NShapes]shapeInfo{
 	{"host1PB", 'B'}, {"host1CB", 'B'},
 	{"startsecA", 'A'}, {"startsecB", 'B'}, {"startfnA", 'A'}, {"startfnB", 'B'},
 	{"nfnA", 'A'}, {"nfnB", 'B'}, {"nfnSelf", 'N'}, {"msecA", 'A'}, {"msecB", 'B'}, {"msecSelf", 'N'}, {"lookup", 'N'}, {"closeN", 'N'},
+	{"xown", 'X'}, {"xnone", 'X'}, {"xshared", 'X'}, {"ximp", 'X'},
 }
 
 type letter struct {
@@ -543,6 +603,27 @@ func (w *world) step(l letter, k uint32) (string, uint32) {
 				mod.Close(w.ctx) // "m" never stays
 			}
 		}
+	case ShXOwn, ShXNone, ShXShared, ShXImported:
+		ms := l.Shape - ShXOwn
+		if w.x[ms] == nil {
+			if ms == xImported && w.q == nil {
+				if w.q, err = w.e.rt.InstantiateModule(w.ctx, w.e.qModule(), wazero.NewModuleConfig().WithName("q")); err != nil {
+					fw.Fatalf("%s: instantiate q: %v", w.e.name, err)
+				}
+			}
+			var x api.Module
+			x, err = w.e.rt.InstantiateModule(w.ctx, w.e.xModule(ms), wazero.NewModuleConfig().WithName("").WithStartFunctions())
+			if err != nil {
+				break // e.g. A is closed: its exports cannot be imported any more
+			}
+			w.x[ms], w.xfn[ms] = x, map[int]api.Function{}
+		}
+		f := w.xfn[ms][l.Kind]
+		if f == nil {
+			f = w.x[ms].ExportedFunction(fmt.Sprintf("seq%d", l.Kind-KSeq0))
+			w.xfn[ms][l.Kind] = f // the function object is reused when the letter occurs again
+		}
+		res, err = f.Call(w.cur, uint64(k))
 	case ShLookup, ShCloseN:
 		m := w.e.rt.Module("n")
 		switch {
